@@ -1,6 +1,7 @@
 import Lean.Data.Json
 import NdcubeModel.Model.Cube
 import NdcubeModel.Model.Sequence
+import NdcubeModel.Model.Collection
 
 /-!
 # Line-protocol driver
@@ -221,6 +222,88 @@ def opSeqShape (j : Json) : R Json := do
   pure <| Json.mkObj [("shape", listJson dimJson s.shape),
     ("cubeLikeShape", exceptJson (listJson natJson) s.cubeLikeShape)]
 
+/-! ## collections (C13) -/
+
+def asMember (j : Json) : R (Key × List Nat) := do
+  let k ← field j "key" >>= asNat
+  let sh ← field j "shape" >>= asList asNat
+  pure (k, sh)
+
+def asOptAxes (j : Json) (k : String) : R (Option (List (List Nat))) :=
+  match optField j k with
+  | none => pure none
+  | some a => (asList (asList asNat) a).map some
+
+def asColl (j : Json) : R (Except Err Coll) := do
+  let ms ← field j "members" >>= asList asMember
+  let ax ← asOptAxes j "axes"
+  pure (Coll.init ms ax)
+
+def asNumIndex (j : Json) : R NumIndex :=
+  match optField j "tuple" with
+  | some t => (asList asItem t).map NumIndex.tuple
+  | none => do
+    let it ← field j "single" >>= asItem
+    match it with
+    | .int i => pure (.int i)
+    | .slice a b c => pure (.slice a b c)
+    | _ => .error "numeric index must be int, slice or tuple"
+
+def asCollOp (j : Json) : R CollOp := do
+  let kind ← field j "kind" >>= asStr
+  match kind with
+  | "slice" => do
+    let ix ← field j "index" >>= asNumIndex
+    pure (.slice ix)
+  | "select" => do
+    let ks ← field j "keys" >>= asList asNat
+    pure (.select ks)
+  | "copy" => pure .copy
+  | "pop" => do
+    let k ← field j "key" >>= asNat
+    pure (.pop k)
+  | "del" => do
+    let k ← field j "key" >>= asNat
+    pure (.del k)
+  | "update" => do
+    let o ← field j "other" >>= asColl
+    match o with
+    | .ok o => pure (.update o)
+    | .error _ => .error "update operand is itself refused by the constructor"
+  | "setitem" => pure .setitem
+  | "setdefault" => pure .setdefault
+  | "popitem" => pure .popitem
+  | "mixed" => pure .mixed
+  | _ => .error s!"unknown collection op {kind}"
+
+def collJson (c : Coll) : Json :=
+  Json.mkObj [("keys", listJson natJson (c.members.map (·.1))),
+    ("shapes", listJson (listJson natJson) (c.members.map (·.2))),
+    ("aligned", optJson (listJson fun (p : Key × List Nat) =>
+        Json.mkObj [("key", natJson p.1), ("axes", listJson natJson p.2)]) c.aligned),
+    ("nAligned", natJson c.nAligned)]
+
+def opCollection (j : Json) : R Json := do
+  let c0 ← asColl j
+  let ops ← field j "ops" >>= asList asCollOp
+  match c0 with
+  | .error e => pure (Json.mkObj [("init", errJson e), ("steps", Json.arr #[])])
+  | .ok c0 =>
+    let rec go (c : Coll) (ops : List CollOp) (acc : List Json) : List Json :=
+      match ops with
+      | [] => acc.reverse
+      | op :: rest =>
+        match c.step op with
+        | .error e => go c rest (errJson e :: acc)
+        | .ok c' =>
+          let extra := match op with
+            | .slice ix => match c.sliceNum ix with
+              | .ok (_, its) => [("memberItems", listJson (listJson itemJson) its)]
+              | .error _ => []
+            | _ => []
+          go c' rest ((Json.mkObj ([("state", collJson c')] ++ extra)) :: acc)
+    pure (Json.mkObj [("init", collJson c0), ("steps", Json.arr (go c0 ops []).toArray)])
+
 def dispatch (j : Json) : R Json := do
   let op ← field j "op" >>= asStr
   match op with
@@ -229,6 +312,7 @@ def dispatch (j : Json) : R Json := do
   | "seq_explode" => opSeqExplode j
   | "iac" => opIac j
   | "seq_shape" => opSeqShape j
+  | "collection" => opCollection j
   | _ => .error s!"unknown op {op}"
 
 def handleLine (line : String) : String :=
